@@ -73,6 +73,7 @@ class Sim:
         self.svc_scale = float(self.knobs.get("svc_scale", 1.0))
         self.hash_rng = None
         self.vtime_total = 0.0
+        self.on_crash = None  # set inside a simulated worker: report and _exit at once
 
     # -- trace ---------------------------------------------------------------------
     def trace(self, *ev):
@@ -238,9 +239,17 @@ def install_solver_seams():
                 dur = float(f["dur"])
                 s.fire(kind)
             elif kind == "crash":
+                # the process is killed from outside (OOM killer): no handler, no finally block runs
                 s.fire("crash")
                 s.trace("crash", site, k)
+                if s.on_crash is not None:
+                    s.on_crash()
                 raise WorkerCrash()
+            elif kind == "error":
+                # the solver call fails inside the process (allocation failure): handlers do run
+                s.fire("error")
+                s.trace("error", site, k)
+                raise MemoryError("injected allocation failure in solver call")
             elif kind == "interrupt":
                 # the solver call is interrupted (Ctrl-C in a notebook, a cancelled task)
                 s.fire("interrupt")
